@@ -365,13 +365,25 @@ fn concurrent_lookup(kind: usize, lookup_end: usize, second: usize, out: &mut Pa
 
 /// Acknowledgements on a slow network: after the node has seen replies slower than its initial
 /// 500 ms timeout, its request timeout has adapted (read from the snapshot); a put whose `n`
-/// storers all acknowledge after 80 % of *that* timeout - later than the round-trip estimate,
+/// storers all acknowledge 40 ms before *that* timeout expires - later than the round-trip estimate,
 /// earlier than expiry - must report Ok.
-fn adaptive_timeout(kind: usize, n: usize, slow_ms: u64, out: &mut Partial) {
+fn adaptive_timeout(kind: usize, n: usize, warm: usize, slow_ms: u64, out: &mut Partial) {
+    let silent = 0usize;
     let mut w = World::new(Chooser::default_run());
     let (req, target) = request(kind);
-    let ids = crate::epnet::ranked_ids(&target, n);
+    // n storers and `silent` nodes that never answer (their lookup requests stay in the in-flight
+    // table: the sweep over both numbers makes the table exactly full while the writes wait)
+    let ids = crate::epnet::ranked_ids(&target, n + silent);
     let mut net = EpNet::new(&mut w, &ids);
+    for i in n..n + silent {
+        net.eps[i].silent = true;
+    }
+    net.eps[0].k = 40;
+    // only the first three storers are discoverable through the lookup, the others are addressed
+    // as extra nodes: the put's writes are then the most requests the node ever had outstanding
+    for e in net.eps.iter_mut() {
+        e.knows = Some(vec![]);
+    }
     let eps = net.addrs();
     let a = w.add_node(NodeCfg::new([9, 9, 9, 9], 7000).bootstrap(&eps[..1]).id([0x21; 20]));
     let mut phase = 0u8; // 0: slow lookups, 1: the put (fast lookup answers, slow acknowledgements)
@@ -399,8 +411,12 @@ fn adaptive_timeout(kind: usize, n: usize, slow_ms: u64, out: &mut Partial) {
             }
         }
     };
-    // slow phase: the bootstrap and three lookups of other targets, every answer takes `slow_ms`
-    for k in 0..3u8 {
+    // slow phase: the bootstrap and six lookups of other targets, every answer takes `slow_ms`.
+    // The bootstrap endpoint lists nobody yet, so the node has never had more than a couple of
+    // requests outstanding: the put below is then the first time its in-flight table fills up
+    // (the socket reclaims timed-out entries only when that table is exactly full).
+    net.eps[0].knows = Some(vec![]);
+    for k in 0..6u8 {
         let c = w.call_find_node(a, [0x90 + k; 20].into());
         let h = w.now + 60 * SEC;
         w.run_until(h, |w, ev| {
@@ -413,13 +429,49 @@ fn adaptive_timeout(kind: usize, n: usize, slow_ms: u64, out: &mut Partial) {
     let timeout = snap.socket.request_timeout.as_nanos() as u64;
     let rtt = snap.socket.estimated_rtt.as_nanos() as u64;
     phase = 1;
-    ack_latency = timeout / 10 * 8;
-    let put = w.call_put_raw(a, req, None);
+    net.eps[0].knows = Some((0..n.min(3)).collect());
+    // just inside the current timeout (and later than the round-trip estimate)
+    // warm-up: the same target is written once to `warm` storers that acknowledge at once; this
+    // fixes the capacity of the in-flight table and leaves the closest nodes cached, so the judged
+    // put below sends its writes without a lookup of its own
+    if warm > 0 {
+        let (req0, _) = request(kind);
+        let extra0: Vec<Node> = (1..warm.min(n)).map(|i| node_with_token(ids[i].into(), eps[i], &net.eps[i].token)).collect();
+        let p0 = w.call_put_raw(a, req0, if extra0.is_empty() { None } else { Some(extra0.into_boxed_slice()) });
+        let h = w.now + 60 * SEC;
+        w.run_until(h, |w, ev| {
+            pump(w, &mut net, ev, phase, DEFAULT_LATENCY, &mut acks_sent);
+            w.result(p0).is_some()
+        });
+        acks_sent = 0;
+        w.run_for(2 * SEC);
+    }
+    ack_latency = timeout.saturating_sub(40 * MS);
+    let extra: Vec<Node> = (1..n).map(|i| node_with_token(ids[i].into(), eps[i], &net.eps[i].token)).collect();
+    let put = w.call_put_raw(a, req, if extra.is_empty() { None } else { Some(extra.into_boxed_slice()) });
     let h = w.now + 60 * SEC;
+    let debug = std::env::var_os("VERIF_DEBUG").is_some();
+    let mut last_dbg = 0u64;
+    let mut table_was_full = false;
+    let put_at = w.now;
     w.run_until(h, |w, ev| {
         pump(w, &mut net, ev, phase, ack_latency, &mut acks_sent);
+        if let Event::Iter { node } = ev {
+            if *node == a && w.nodes[a].alive {
+                let s = w.snapshot(a);
+                // full while the writes are older than the round-trip estimate and not yet expired
+                table_was_full |= s.socket.inflight.len() == s.socket.inflight_capacity && w.now > put_at + rtt + 20 * MS && w.now < put_at + ack_latency && !s.socket.inflight.is_empty();
+                if debug && (w.now >= last_dbg + 50 * MS || std::env::var_os("VERIF_DEBUG_ALL").is_some()) {
+                    last_dbg = w.now;
+                    eprintln!("DEBUG n={n} t={}ms inflight={} cap={} unexpired={}", (w.now - T0) / MS, s.socket.inflight.len(), s.socket.inflight_capacity, s.socket.inflight_unexpired);
+                }
+            }
+        }
         w.result(put).is_some()
     });
+    if table_was_full {
+        out.add("adaptive_timeout_scenarios_with_a_full_inflight_table", 1);
+    }
     out.add("executions", 1);
     out.add("adaptive_timeout_scenarios", 1);
     out.add("transitions", w.steps);
@@ -427,7 +479,7 @@ fn adaptive_timeout(kind: usize, n: usize, slow_ms: u64, out: &mut Partial) {
     if timeout > 600 * MS {
         out.add("adaptive_timeout_scenarios_with_adapted_timeout", 1);
     }
-    let replay = json!({"part": "adaptive-timeout", "kind": kind, "n": n, "slow_ms": slow_ms});
+    let replay = json!({"part": "adaptive-timeout", "kind": kind, "n": n, "warm": warm, "slow_ms": slow_ms});
     match w.result(put) {
         Some(CallResult::Put(Ok(_))) => out.add("ok_results", 1),
         Some(CallResult::Put(Err(e))) if acks_sent > 0 => out.violation(
@@ -801,12 +853,14 @@ fn run(tier: Tier, shard: usize, nshards: usize, _seed: u64) -> Partial {
         }
     }
     // ---- acknowledgements on a slow network (adapted request timeout)
-    for kind in 0..4 {
-        for n in [1usize, 3, 4, 5, 7, 8, 9, 16] {
-            for slow_ms in [700u64, 1500] {
+    for kind in [0usize, 1] {
+        // (many counts: the socket reclaims timed-out entries only when its in-flight table is
+        // exactly full; whether that is met is reported as a counter, not demanded)
+        for n in 1usize..=24 {
+            for (warm, slow_ms) in [(0usize, 600u64), (0, 800), (5, 800)] {
                 idx += 1;
                 if idx % nshards == shard {
-                    adaptive_timeout(kind, n, slow_ms, &mut out);
+                    adaptive_timeout(kind, n, warm, slow_ms, &mut out);
                 }
             }
         }
@@ -848,7 +902,7 @@ fn replay(v: &Value) -> Result<Option<Violation>, String> {
         overlap(v.get("pair").and_then(|x| x.as_u64()).ok_or("pair")? as usize, Some(v.get("at_event").and_then(|x| x.as_u64()).ok_or("at_event")? as u32), &mut out);
     } else if v.get("part").and_then(|p| p.as_str()) == Some("adaptive-timeout") {
         let g = |k: &str| v.get(k).and_then(|x| x.as_u64());
-        adaptive_timeout(g("kind").ok_or("kind")? as usize, g("n").ok_or("n")? as usize, g("slow_ms").ok_or("slow_ms")?, &mut out);
+        adaptive_timeout(g("kind").ok_or("kind")? as usize, g("n").ok_or("n")? as usize, g("warm").unwrap_or(0) as usize, g("slow_ms").ok_or("slow_ms")?, &mut out);
     } else if v.get("part").and_then(|p| p.as_str()) == Some("concurrent-lookup") {
         let g = |k: &str| v.get(k).and_then(|x| x.as_u64()).map(|x| x as usize);
         concurrent_lookup(g("kind").ok_or("kind")?, g("lookup_end").ok_or("lookup_end")?, g("second").ok_or("second")?, &mut out);
